@@ -27,3 +27,17 @@ Proof. exact (@collapse_merge_fresh). Qed.
 Theorem C10_consec : forall (R : Region) (SP : RSpec R), RegionOK R -> forall (PI : PairIdx R) (D : Dense R),
   MergeFresh R -> forall (O : IC nat) (HO : ICOk O) (chk : bool), MergeFresh (consec R O chk).
 Proof. exact (@consec_merge_fresh). Qed.
+Theorem C10_columns : forall (R : Region) (SP : RSpec R), RegionOK R -> MergeFresh R ->
+  forall (O : IC nat) (HO : ICOk O) (chk : bool), MergeFresh (columns R O chk).
+Proof. exact (@columns_merge_fresh). Qed.
+
+(** The tie to the terms the correspondence runs: for EVERY non-coded region of the catalogue (entries
+    other than 21, 29 and the dictionary / Huffman entries 41-51, whose merged regions carry a
+    dictionary or code table by design: C06, C07), a region merged from ANY well-formed regions is
+    observationally a default region -- so by [C10_merge_fresh_history] every later history answers
+    exactly as on Default::default(). *)
+From FC Require Import Model.Wire Model.Catalogue Model.CatalogueOk.
+Theorem C10_catalogue : forall chk szs n e, entry chk szs n = Some e -> structural n = true ->
+  exists SP : RSpec (mr e), @RegionOK (mr e) SP /\
+    forall l, Forall (@inv _ SP) l -> @sim _ SP (merge (mr e) l) (dflt (mr e)).
+Proof. exact catalogue_merge_fresh. Qed.
